@@ -347,6 +347,47 @@ def _modify_root(ctx):
                     text_="_modifyRoot forwards to %s" % c.func.id)
 
 
+def _modify_root_depth(ctx):
+    """The below-the-root leg of Tensor._modifyRoot runs the *Below transform
+    on the root: the root is level 0, so the fibers `depth` ranks down are
+    reached with depth - 1 (Fiber.updatePayloadsBelow counts from the fiber
+    it is called on).  Any other offset transforms the wrong rank while the
+    rank ids / shape are computed for the requested one."""
+    f = ctx.method("Tensor", "_modifyRoot")
+    below = f.params[2] if len(f.params) > 2 else None
+    dp = "depth" if "depth" in f.all_param_names() else None
+    ctx.require(below and dp, "C09.R4: _modifyRoot(func, funcBelow, depth) signature changed")
+    calls = [c for c in f.own_nodes() if isinstance(c, ast.Call)
+             and isinstance(c.func, ast.Name) and c.func.id == below]
+    ctx.require(calls, "C09.R4: _modifyRoot no longer calls its below-the-root transform")
+    from .c18 import poly
+    for c in calls:
+        d = pat.kwarg(c, "depth", 1)
+        pd = poly(ctx, f, d) if d is not None else None
+        if pd == {(dp,): 1, (): -1}:
+            ctx.ok("C09.R4", f, c, "below the root the transform descends depth - 1 levels",
+                   text_="_modifyRoot below depth")
+        else:
+            ctx.bad("C09.R4", f, c, "Tensor._modifyRoot hands `%s` to the "
+                    "below-the-root transform instead of depth - 1: the fibers "
+                    "transformed are not those of the requested rank, while the "
+                    "rank ids and shape are computed for it"
+                    % (text(d) if d is not None else "no depth"),
+                    text_="_modifyRoot below depth")
+    # the root leg only when depth is 0
+    roots = [c for c in f.own_nodes() if isinstance(c, ast.Call)
+             and isinstance(c.func, ast.Name) and c.func.id == f.params[1]]
+    for c in roots:
+        gs = pat.catoms_of_guards(ctx, f, enclosing_stmt(c))
+        if pat.A("==", dp, "0") in gs:
+            ctx.ok("C09.R4", f, c, "the root itself is transformed only for depth 0",
+                   text_="_modifyRoot root depth")
+        else:
+            ctx.bad("C09.R4", f, c, "Tensor._modifyRoot applies the transform to "
+                    "the root although depth may be non-zero",
+                    text_="_modifyRoot root depth")
+
+
 def _swap_guard(ctx):
     """Tensor.swapRanks skips the fiber-level swap only when there is nothing
     to swap: the guard must be existential over the rank's fibers (`not all
@@ -554,6 +595,7 @@ def r4(ctx):
     _merge_alignment(ctx)
     _swap_guard(ctx)
     _modify_root(ctx)
+    _modify_root_depth(ctx)
     n_ = 0
     for mname in ("updateCoords", "updatePayloads", "_mergeRanksHelper", "unflattenRanks"):
         k = pat.check_unit_recursion(ctx, "C09.R4", ctx.method("Fiber", mname),
